@@ -13,6 +13,7 @@ from ..model import Program
 TITLE = "Singletons stay singletons when constructed concurrently"
 ARMED = ("Dimension", "Prefix", "Unit")
 INVENTORY = ("Logarithm", "LogarithmicUnit")
+KEY_ATTRS = {"Dimension": ["exponents"], "Prefix": ["base", "exponent"], "Unit": ["prefix", "factors", "dimension"]}
 
 
 def module_locks(prog: Program) -> Set[str]:
@@ -122,6 +123,8 @@ def run(rep: Report) -> None:
              "other than interning calls", floor=6)
     rep.rule("R20.3", "no other test-then-write on an intern table outside the constructors (Dimension.define's definition-time "
              "resize is listed)", floor=1)
+    rep.rule("R20.5", "in the interning classes' __init__ every attribute an intern key is built from is assigned once on each path (no provisional "
+             "value on an object other threads can already see)", floor=5)
     locks = module_locks(prog)
     for cls in ARMED:
         ok, why, facts = analyse_new(prog, cls, locks)
@@ -133,6 +136,39 @@ def run(rep: Report) -> None:
         rep.check("R20.1", f"{cls}.__init__:no-late-registration", not late,
                   f"{cls}.__init__ writes the intern table: registration happens long after the membership test in __new__",
                   init.where(late[0].node if late else None))
+    # R20.5: the object is in the intern table - visible to every thread - before __init__ runs, and a thread that gets it
+    # with _initialized still False runs __init__ on it again.  Re-running is harmless only while each attribute the intern
+    # keys are computed from goes straight to its final value: a provisional value (a default overwritten two lines later)
+    # is what another thread reads when it builds the key of a product, and the product is interned under a wrong key.
+    for cls in ARMED:
+        init = prog.func(f"{cls}.__init__")
+        newp = prog.func(f"{cls}.__new__").params()
+        keys = [a for a in KEY_ATTRS[cls] if a in newp]
+        if not keys:
+            raise AnalysisError(f"{cls}.__new__ no longer takes {KEY_ATTRS[cls]} (anchor of R20.5 moved)")
+        cfg = CFG(init.node)
+        for a in keys:
+            sts = []
+            for st in ast.walk(init.node):
+                tg = st.targets if isinstance(st, ast.Assign) else ([st.target] if isinstance(st, (ast.AnnAssign, ast.AugAssign)) and getattr(st, "value", None) is not None else [])
+                tg = [x for t in tg for x in (t.elts if isinstance(t, (ast.Tuple, ast.List)) else [t])]
+                if any(isinstance(t, ast.Attribute) and isinstance(t.value, ast.Name) and t.value.id == "self" and t.attr == a for t in tg):
+                    sts.append(st)
+            again = None
+            for x in sts:
+                nx = cfg.node_of(x)
+                if nx is None:
+                    continue
+                after = cfg.reachable_after(nx)
+                for y in sts:
+                    ny = cfg.node_of(y)
+                    if y is not x and ny is not None and ny in after:
+                        again = (x, y)
+            rep.check("R20.5", f"{cls}.__init__:self.{a}", again is None and bool(sts),
+                      (f"{cls}.__init__ assigns self.{a} at line {again[0].lineno} and again at line {again[1].lineno}: between the two, every other thread "
+                       f"holding this (already interned) object reads the provisional value - and a thread re-running __init__ on an object "
+                       "another thread already uses puts it back - so keys built from it intern a second, bogus object") if again else
+                      f"{cls}.__init__ never assigns self.{a}", init.where(again[1] if again else None))
     for cls in INVENTORY:
         ok, why, facts = analyse_new(prog, cls, locks)
         rep.inventory("R20.1i", {"class": cls, "atomic": ok, "why": why, **facts})
